@@ -734,6 +734,168 @@ def observe_rotation(tmp):
     return dict(stamp_spec=spec, name_format=name_format, counter=True, counter_format=counter_format)
 
 
+# ---- the stdout target: sys.stdout replaced by a buffered file object over a real file (or a pseudo terminal) ----
+
+STDOUT_KINDS = [   # (model kind, uri, stdout is a terminal)
+    ("OStream", "-", False), ("OPrinter", "-", True), ("OJson", "jsonfile://-", False), ("OCsv", "csvfile://-", False),
+    ("OLine", "line://-", False), ("OText", "text://-", False), ("OAvro", "avro://-", False),
+]
+_PROBE_MARK = None
+
+
+class FakeStdout:
+    """context manager: sys.stdout = TextIOWrapper(BufferedWriter(<file or pty slave>)) with a large buffer that is
+    never flushed by us; .snapshot() = the bytes that have left the buffer so far"""
+
+    def __init__(self, tmp, tty=False):
+        self.tmp, self.tty = tmp, tty
+        self.got = b""
+
+    def __enter__(self):
+        import io
+        import sys
+        self.real = sys.stdout
+        if self.tty:
+            import pty
+            self.master, self.slave = pty.openpty()
+            raw = io.FileIO(self.slave, "wb", closefd=False)
+        else:
+            self.path = os.path.join(self.tmp, "stdout.%d.bin" % os.getpid())
+            raw = io.FileIO(self.path, "wb")
+        self.fake = io.TextIOWrapper(io.BufferedWriter(raw, buffer_size=1 << 20), encoding="utf-8", errors="surrogateescape",
+                                     write_through=False)
+        sys.stdout = self.fake
+        return self
+
+    def snapshot(self):
+        if self.tty:
+            import select
+            while select.select([self.master], [], [], 0.02)[0]:
+                chunk = os.read(self.master, 1 << 16)
+                if not chunk:
+                    break
+                self.got += chunk
+            return self.got
+        with open(self.path, "rb") as f:
+            return f.read()
+
+    def __exit__(self, *a):
+        import sys
+        sys.stdout = self.real
+        self.stdout_closed = bool(self.fake.closed or self.fake.buffer.closed)
+        try:
+            self.fake.detach().detach().close()     # drop the buffers unflushed
+        except Exception:
+            pass
+        if self.tty:
+            for fd in (self.master, self.slave):
+                try:
+                    os.close(fd)
+                except OSError:
+                    pass
+
+
+def delivered_marks(kind, data):
+    """the (letter, id) markers of the records found in the bytes delivered so far"""
+    import re
+    mark = re.compile(rb"rec-([AB])-(\d+)-x")
+    if kind == "OAvro":
+        if not data:
+            return []
+        import io
+        import fastavro
+        try:
+            return [tuple((m.group(1).decode(), int(m.group(2))) for m in [mark.fullmatch((d.get("s") or "").encode())] if m)[0]
+                    for d in fastavro.reader(io.BytesIO(data))]
+        except Exception as e:  # noqa
+            raise Unsupported("the bytes an Avro writer delivered to stdout are not readable: %r" % (e,))
+    return [(a.decode(), int(b)) for a, b in mark.findall(data)]
+
+
+def _stdout_probe_record(i):
+    from flow.record import RecordDescriptor
+    import datetime as real
+    global _PROBE_MARK
+    if _PROBE_MARK is None:
+        _PROBE_MARK = RecordDescriptor("c17/a", [("varint", "n"), ("string", "s")])
+    return _PROBE_MARK(n=i, s="rec-A-%d-x" % i, _generated=real.datetime(2020, 1, 1, tzinfo=real.timezone.utc))
+
+
+def observe_stdout(tmp):
+    """kind -> (write delivers, flush delivers, close delivers), each observed on the real writer"""
+    from flow.record import RecordWriter
+    out = {}
+    for kind, uri, tty in STDOUT_KINDS:
+        res = {}
+        after_close = None
+        for name, ops in (("write", "W"), ("flush", "WF"), ("close", "WC"), ("write2", "WW"), ("after_close", "WC!")):
+            with FakeStdout(tmp, tty) as fs:
+                w = RecordWriter(uri)
+                i = 0
+                for op in ops:
+                    if op == "W":
+                        w.write(_stdout_probe_record(i))
+                        i += 1
+                    elif op == "F":
+                        w.flush()
+                    elif op == "!":       # write() on the closed writer: refused, or accepted into stdout's buffer?
+                        try:
+                            w.write(_stdout_probe_record(i))
+                            after_close = True
+                        except Exception:
+                            after_close = False
+                    else:
+                        w.close()
+                res[name] = len(delivered_marks(kind, fs.snapshot()))
+                del w
+            if fs.stdout_closed:
+                raise Unsupported("the %s writer on %r closed sys.stdout" % (kind, uri))
+        wd = res["write"] == 1
+        if res["write"] not in (0, 1) or res["write2"] != (2 if wd else 0):
+            raise Unsupported("%s on stdout: %d of 1 / %d of 2 records delivered right after write()" % (kind, res["write"], res["write2"]))
+        out[kind] = (wd, res["flush"] == 1, res["close"] == 1, bool(after_close))
+    return out
+
+
+WRITER_PROBES = [   # (class, uri template)
+    ("StreamWriter", "{p}.records"), ("JsonfileWriter", "jsonfile://{p}.json"), ("CsvfileWriter", "csvfile://{p}.csv"),
+    ("LineWriter", "line://{p}.txt"), ("TextWriter", "text://{p}.txt"), ("AvroWriter", "avro://{p}.avro"),
+    ("SqliteWriter", "sqlite://{p}.sqlite"),
+]
+
+
+def observe_writer_table(tmp):
+    """which model adapter each writer class is an instance of, by what it leaves on disk"""
+    from flow.record import RecordWriter
+    table = []
+    for cls, tmpl in WRITER_PROBES:
+        p = os.path.join(tmp, "wt_" + cls)
+        uri = tmpl.format(p=p)
+        path = uri.split("://", 1)[1] if "://" in uri else uri
+        with RecordWriter(uri) as w:
+            if type(w).__name__ != cls:
+                raise Unsupported("%r is served by %s, not %s" % (uri, type(w).__name__, cls))
+            w.write(_stdout_probe_record(0))
+        data = open(path, "rb").read()
+        if data.startswith(b"\x00\x00\x00\x0f\xc4\rRECORDSTREAM\n"):
+            k = "AStream"
+        elif data.startswith(b"Obj\x01"):
+            k = "AAvro"
+        elif data.startswith(b"SQLite format 3"):
+            k = "ASqlite"
+        elif b"rec-A-0-x" in data:
+            os.remove(path)
+            with RecordWriter(uri):
+                pass
+            if os.path.getsize(path) != 0:
+                raise Unsupported("%s leaves %d bytes for an empty output" % (cls, os.path.getsize(path)))
+            k = "APlain"
+        else:
+            raise Unsupported("cannot classify what %s writes: %r" % (cls, data[:40]))
+        table.append((cls, k))
+    return table
+
+
 def _cross_check(notes, what, observed, recogniser):
     """recognised and different -> Unsupported; not recognised -> note"""
     try:
@@ -794,6 +956,8 @@ def shapes():
         ge, steps = observe_split_roll()
         stdout_netloc, stdout_path = observe_split_stdout(_module_strings(split_mod))
         rot = observe_rotation(tmp)
+        stdout_facts = observe_stdout(tmp)
+        writer_table = observe_writer_table(tmp)
     finally:
         shutil.rmtree(tmp, ignore_errors=True)
 
@@ -837,7 +1001,8 @@ def shapes():
         split_stdout_netloc=stdout_netloc, split_stdout_path=stdout_path,
         rotate_counter=rot["counter"], rotated_name_counter_format=rot["counter_format"],
         stream_close_flushes=stream_close_flushes, split_ge=ge, split_roll=steps,
-        stamp_spec=rot["stamp_spec"], rotated_name_format=rot["name_format"], notes=notes))
+        stamp_spec=rot["stamp_spec"], rotated_name_format=rot["name_format"], notes=notes,
+        stdout=stdout_facts, writer_table=writer_table))
     return dict(_SHAPES)
 
 
@@ -884,6 +1049,15 @@ def gen_writers():
         optvals(sh["split_stdout_netloc"]), optvals(sh["split_stdout_path"]))
     out = out.replace("sh_split_stdout_path := %s |}." % optvals(sh["split_stdout_path"]),
                       "sh_split_stdout_path := %s;\n     sh_exit_exc := %s |}." % (optvals(sh["split_stdout_path"]), clist(sh["exit_exc"])))
+    out += "\n(* the stdout target ('-'), observed with sys.stdout replaced by a buffered file object (OPrinter: a terminal):\n"
+    out += "   does write() / flush() / close() leave nothing in that buffer?  does write() on a closed writer still go there? *)\n"
+    out += "Definition stdout_shapes (k : okind) : oshape :=\n  match k with\n"
+    for kind, _, _ in STDOUT_KINDS:
+        a, b, c, d = sh["stdout"][kind]
+        out += "  | %s => mkOShape %s %s %s %s\n" % (kind, cbool(a), cbool(b), cbool(c), cbool(d))
+    out += "  end.\n"
+    out += "\n(* the writers that write to a path, each with the model adapter it is an instance of (by what it leaves on disk) *)\n"
+    out += "Definition writer_table : list (string * adapter) :=\n  %s.\n" % clist(["(%s, %s)" % (cstr(c), k) for c, k in sh["writer_table"]])
     write_if_changed(GEN / "Gen_writers.v", out)
 
 
